@@ -533,6 +533,140 @@ def refused_after_status_case(run, pv, default_pv, hook_log):
             pc.safe_disconnect(conn)
 
 
+def half_open_backlog_case(run, pv, hook_log):
+    """The server ends its side of the stream (shutdown of its write side) but
+    keeps the socket open and reads nothing more; a listener of the client has
+    meanwhile queued more than the socket buffers hold.  The end of stream must
+    still end the networking thread and be reported - nothing may wait for the
+    queue to drain into a peer that will never read it."""
+    from minecraft.networking.packets import clientbound, serverbound
+    import threading as _th
+    codec = codec_for(pv)
+    release = _th.Event()
+    half_closed = _th.Event()
+
+    def handler(io):
+        scripts.read_handshake(io)
+        scripts.login_offline(io, pv, None, codec)
+        io.send_frame(*codec.encode('cb_keep_alive', {'id': 5}))
+        io.half_close()
+        half_closed.set()
+        release.wait(40.0)          # stays open, reads nothing
+    server = mcserver.Server(handler)
+    rec = pc.Recorder()
+    w = {'scenario': 'half-open-with-backlog', 'pv': pv}
+    conn = None
+    try:
+        conn = pc.make_connection(server.port, rec, allowed_versions={pv})
+        conn.vf_sndbuf = 32768
+
+        def pile_up(_p):
+            blob = b'x' * 60000
+            for i in range(120):                       # ~7 MB
+                conn.write_packet(serverbound.play.PluginMessagePacket(
+                    channel='vf:bulk', data=blob))
+            # the end of the stream is there by the time this listener
+            # returns, i.e. it is met in the same read batch (a client that
+            # only notices it after it has started writing the backlog to a
+            # peer that does not read is simply flow-controlled: outside the
+            # statement)
+            import time
+            half_closed.wait(5.0)
+            time.sleep(0.05)
+        conn.register_packet_listener(pile_up,
+                                      clientbound.play.KeepAlivePacket)
+        del hook_log[:]
+        conn.connect()
+        done = pc.wait_idle(conn, 20.0)
+        cpu = [pc.thread_cpu_seconds(t) for t in pc.threads_of(conn)]
+        run.count('half_open_backlog_cases')
+        if not done:
+            run.violation('eof/blocks-forever', 'after the server had ended '
+                          'its side of the stream (half-open, not reading) '
+                          'the networking thread did not terminate: it is '
+                          'blocked writing its backlog to a peer that will '
+                          'never read it', dict(
+                              w, reported=repr(rec.exceptions[:1]),
+                              thread_cpu_s=cpu,
+                              where=pc.dump_threads()[-700:]))
+        elif not rec.exceptions and not hook_log:
+            run.violation('eof/silent/half-open', 'the stream ended before '
+                          'the conversation did and no error was reported',
+                          dict(w, exits=rec.exits))
+        else:
+            run.count('errors_reported')
+        return 'ok', w
+    finally:
+        release.set()
+        server.stop()
+        if conn is not None:
+            pc.safe_disconnect(conn)
+
+
+def forced_write_after_close_case(run, pv, hook_log):
+    """The server sends a complete packet and closes; the client first
+    notices through a *forced write made inside a listener*, which fails.  That
+    is an error like any other end of the conversation: it must be reported,
+    not turned into an orderly exit."""
+    from minecraft.networking.packets import clientbound, serverbound
+    import threading as _th
+    import time
+    codec = codec_for(pv)
+    closed = _th.Event()
+
+    def handler(io):
+        scripts.read_handshake(io)
+        scripts.login_offline(io, pv, None, codec)
+        io.send_frame(*codec.encode('cb_keep_alive', {'id': 5}))
+        time.sleep(0.05)
+        io.close()
+        closed.set()
+    server = mcserver.Server(handler)
+    rec = pc.Recorder()
+    w = {'scenario': 'forced-write-after-close', 'pv': pv}
+    conn = None
+    try:
+        conn = pc.make_connection(server.port, rec, allowed_versions={pv},
+                                  early_listener=False)
+        raised = []
+
+        def answer_urgently(_p):
+            closed.wait(5.0)
+            time.sleep(0.03)
+            try:
+                for i in range(4):       # the first provokes the reset, ...
+                    conn.write_packet(serverbound.play.ChatPacket(
+                        message='urgent %d' % i), force=True)
+                    time.sleep(0.01)
+            except Exception as e:
+                raised.append(e)
+                raise
+        conn.register_packet_listener(answer_urgently,
+                                      clientbound.play.KeepAlivePacket)
+        del hook_log[:]
+        conn.connect()
+        if not pc.wait_idle(conn, 20.0):
+            return None, 'threads alive: ' + pc.dump_threads()
+        server.join(8.0)
+        run.count('forced_write_after_close_cases')
+        w['write_error'] = repr(raised[:1])
+        if not raised:
+            run.count('forced_write_after_close.write_did_not_fail')
+            return 'ok', w
+        if not rec.exceptions and not hook_log:
+            run.violation('eof/silent/forced-write-after-close', 'the server '
+                          'had closed; the forced write that noticed it '
+                          'failed, and nothing was reported (exit callback '
+                          'ran %d times)' % rec.exits, w)
+        else:
+            run.count('errors_reported')
+        return 'ok', w
+    finally:
+        server.stop()
+        if conn is not None:
+            pc.safe_disconnect(conn)
+
+
 def run(run):
     thorough = run.tier == 'thorough'
     run.level = 'fault_enumeration'
@@ -573,6 +707,20 @@ def run(run):
                 if res is None:
                     run.inconclusive_because('status-then-refused@%d: %s'
                                              % (pv, info))
+        for vi, (pv, default_pv) in enumerate(versions):
+            for fi, fn in enumerate((half_open_backlog_case,
+                                     forced_write_after_close_case)):
+                if not run.mine(910000 + 2 * vi + fi):
+                    continue
+                res = None
+                for attempt in range(2):
+                    res, info = fn(run, pv, hook_log)
+                    if res is not None:
+                        break
+                run.case((fn.__name__, pv))
+                if res is None:
+                    run.inconclusive_because('%s@%d: %s' % (fn.__name__, pv,
+                                                            info))
         for pv, default_pv in versions:
             for scenario in SCENARIOS:
                 # dry run: total length and frame boundaries
@@ -634,3 +782,5 @@ def run(run):
     run.require('cuts.frame-boundary', 20)
     run.require('cuts_with_reset', 10)
     run.require('refused_after_status', 1)
+    run.require('half_open_backlog_cases', 1)
+    run.require('forced_write_after_close_cases', 1)
